@@ -73,6 +73,10 @@ def handle (args : List String) : String :=
   match args with
   | ["net", stations, kind, adp, v] =>
     handleNet (if stations = "-" then [] else (splitOn stations ",").map nat!) kind (nat! adp) (nat! v)
+  | [maxSub, caps, iters, assign, devs, _prior] =>
+    -- an earlier init of the same MainDevice (any network, any outcome) does not enter the model: `init` is a
+    -- function of the network under test only; the harness runs the earlier init for real
+    handle [maxSub, caps, iters, assign, devs]
   | [maxSub, caps, iters, assign, devs] =>
     let ring := if devs = "-" then [] else (splitOn devs ";").map parseDev
     let capsL := (splitOn caps ",").map nat!
